@@ -446,7 +446,8 @@ def gen_codec(rng, tier, big=False, flavour=None):
             al.append({"label": "ornament", "score_id": str(na[rng.randrange(len(na))]["id"]), "performance_id": pid})
         else:
             tied = [n["tie"] for n in d["notes"] if n.get("tie")]
-            al.append({"label": "match", "score_id": rng.choice(tied + ["zz9"]), "performance_id": pid})
+            look = [lookalike_id(rng, [m["id"] for m in d["notes"]]) for _ in range(2)]
+            al.append({"label": "match", "score_id": rng.choice(tied + ["zz9"] + look), "performance_id": pid})
     if rng.random() < 0.5:
         rng.shuffle(al)
     if rng.random() < 0.3:
@@ -470,6 +471,22 @@ def gen_codec(rng, tier, big=False, flavour=None):
     return out
 
 
+def lookalike_id(rng, ids, fallback="zz9"):
+    """round 6 (missed seed k): an id that LOOKS LIKE an existing one without being it - the repetition suffix of an unfolded
+    score (`n3-2` next to `n3`), other suffixes / prefixes, a proper prefix, another case, surrounding blanks.  Whatever
+    normalisation of ids an implementation applies (strip the suffix, strip blanks, fold the case, prefix search), such a
+    match names no note of THIS score and must be left out of the table."""
+    ids = [str(i) for i in ids if str(i)]
+    if not ids:
+        return fallback
+    x = rng.choice(ids)
+    r = rng.random()
+    if r < 0.5:
+        return x + "-" + rng.choice(["1", "2", "2", "3", "10", "x", ""])
+    return rng.choice([x + "-2-3", "-" + x, "2-" + x, x + "_2", x + ".2", x + "2", x[:-1] or fallback, x.upper() if x.upper() != x else x.lower(),
+                       " " + x, x + " ", x + "-" + x, x.rsplit("-", 1)[0] + "-"])
+
+
 def gen_tables(rng):
     """direct note-array tables: duplicate ids, ids missing on either side"""
     ns = rng.randint(0, 7)
@@ -489,6 +506,10 @@ def gen_tables(rng):
         lab = rng.choice(["match", "match", "match", "insertion", "deletion", "ornament"])
         sid = "s%d" % rng.randint(0, 8)
         pid = "p%d" % rng.randint(0, 8 if rng.random() < 0.3 else max(0, npf - 1))
+        if rng.random() < 0.2:
+            sid = lookalike_id(rng, sids, sid)
+        elif rng.random() < 0.06:
+            pid = lookalike_id(rng, pids, pid)
         if lab == "insertion":
             al.append({"label": lab, "performance_id": pid})
         elif lab == "deletion":
@@ -516,6 +537,8 @@ def gen_alforms(rng):
 
     def ident(pool, known):
         x = rng.choice(known) if rng.random() < 0.8 else rng.choice(pool)
+        if rng.random() < 0.15:
+            x = lookalike_id(rng, known, x)
         r = rng.random()
         if not wild or r < 0.45:
             return x
@@ -998,6 +1021,22 @@ def first_index(ids):
 
 
 # ---------------------------------------------------------------------------------- matched tables
+def alignment_rewritten(before, after):
+    """matched-table clause, caller's side: the alignment handed in still names the same notes afterwards - same entries,
+    same keys, same labels, identical performance ids, score ids equal as strings (the str() of an integer id in place is
+    the documented behaviour and names the same note).  Returns a description of the first difference or None."""
+    if len(before) != len(after):
+        return "has %d entries, had %d" % (len(after), len(before))
+    for k, (a, b) in enumerate(zip(before, after)):
+        if sorted(a.keys()) != sorted(b.keys()):
+            return "entry %d has keys %r, had %r" % (k, sorted(b.keys()), sorted(a.keys()))
+        for key in a:
+            same = str(a[key]) == str(b[key]) if key == "score_id" else (type(a[key]) is type(b[key]) and a[key] == b[key])
+            if not same:
+                return "entry %d: %s is %r, was %r" % (k, key, b[key], a[key])
+    return None
+
+
 def expected_pairs(na, pna, al):
     """the alignment's matches whose ids exist on both sides: (score index, performance index), alignment order"""
     si, pi = first_index(na["id"]), first_index(pna["id"])
@@ -1082,8 +1121,12 @@ def eval_tables(ev, na, pna, al, part_or_na, perf_or_na, judge_ms=True):
     # to_matched_score
     si, pi = first_index(na["id"]), first_index(pna["id"])
     dangling = any(a["label"] == "match" and str(a["score_id"]) in si and str(a.get("performance_id")) not in pi for a in al)
-    r, e = call(pc.to_matched_score, part_or_na, perf_or_na, copy_al(al))
+    al_given = copy_al(al)
+    r, e = call(pc.to_matched_score, part_or_na, perf_or_na, al_given)
     ev.requests.append("ms " + " ".join(toks))
+    rw = alignment_rewritten(al, al_given)
+    if rw is not None:
+        ev.oracle.append("matched-table: to_matched_score rewrote the caller's alignment: %s" % rw)
     if e is not None:
         ev.impl.append("err")
         if not dangling:
@@ -1201,6 +1244,9 @@ def eval_alforms(ev, d, info):
         return rows
 
     r, e, left = ms_call(al, "first")
+    rw = alignment_rewritten(al, left)
+    if rw is not None:
+        ev.oracle.append("matched-table: to_matched_score rewrote the caller's alignment: %s" % rw)
     ms_call(left, "again")
     mn = mn_call(al)
     mn_call(left)
